@@ -48,7 +48,6 @@ THEOREMS = [
     'C09_geomcomp_one_line', 'C09_geomcomp_lines',
     'C09_volume_gets_leaf_material', 'C09_compositions_exact',
     'C09_compositions_distinct', 'C09_geomcomp_name_has_composition',
-    'C09_material_leading_zero_refuted',
 ]
 TRUSTED = [
     'hand-written model coq/C09/Model.v (tied by execution only); pot_fill '
@@ -88,9 +87,8 @@ ASSUMPTIONS = [
     'C09_compositions_exact / C09_geomcomp_name_has_composition: the stored '
     'densities are fixed points of normalize_float (proved for every string '
     'parse_material can store: C09_normalize_float_idempotent, '
-    'C09_parse_material_density_fixed) and the material token is the '
-    'canonical decimal spelling of its number '
-    '(C09_material_leading_zero_refuted otherwise)',
+    'C09_parse_material_density_fixed); no guard on the spelling of the '
+    'material number any more (repaired in /repo d8902ad)',
 ]
 HEADER = ('From Coq Require Import List NArith ZArith Bool String Ascii.\n'
           'From Coq Require Uint63.\n'
@@ -612,8 +610,8 @@ def oracle_geomcomp(vols, cells, lines):
                 return f'virtual volume {k} listed'
             continue
         src = cells[origin[0][0] if origin else k]
-        want = 'm' + src['mat'] + ('' if src['dens'] is None
-                                   else '_' + src['dens'])
+        want = f'm{int(src["mat"])}' + ('' if src['dens'] is None
+                                            else '_' + src['dens'])
         if where.get(k) != [want]:
             return f'volume {k}: lines {where.get(k)}, expected {want}'
     if any(k not in vols for k in where):
@@ -642,6 +640,8 @@ def tie_geomcomp(res, tier, rng, real):
     cases, meta = [], []
     for _ in range(n):
         cells = c09_gen.gen_cells(rng)
+        if rng.random() < 0.05:
+            rng.choice(list(cells.values()))['mat'] = '1x'    # ValueError
         vols = gen_vols(rng, cells)
         out = guarded(impl_geomcomp, concrete_vols(vols),
                       concrete_cells(cells))
@@ -934,8 +934,8 @@ def witnesses(res):
                       'cell material written 01: '
                       + (f'GEOMCOMP names {missing} have no composition '
                          f'({sorted(comp)})' if conv.ok else str(conv)),
-                      {'input': {'deck': text}}, cls='material_leading_zero',
-                      found_input=True)
+                      {'input': {'deck': text}},
+                      found_input=True)       # repaired in /repo (d8902ad)
 
 
 def corpus(res):
